@@ -2301,7 +2301,7 @@ func (e *CoreExtension) functionMerge(args ...interface{}) (interface{}, error) 
 		} else {
 			// Use reflection for other map types
 			baseRv := reflect.ValueOf(base)
-			for _, key := range baseRv.MapKeys() {
+			for _, key := range sortedMapKeys(baseRv) { // key order: keys with one string form collide the same way every time
 				keyStr := toString(key.Interface())
 				result[keyStr] = baseRv.MapIndex(key).Interface()
 			}
@@ -2318,7 +2318,7 @@ func (e *CoreExtension) functionMerge(args ...interface{}) (interface{}, error) 
 				// Use reflection for other map types
 				argRv := reflect.ValueOf(arg)
 				if argRv.Kind() == reflect.Map {
-					for _, key := range argRv.MapKeys() {
+					for _, key := range sortedMapKeys(argRv) {
 						keyStr := toString(key.Interface())
 						result[keyStr] = argRv.MapIndex(key).Interface()
 					}
